@@ -138,7 +138,7 @@ def lean_check(prop, thorough, locked=False):
     thms = theorems_of(path)
     res = dict(obligations=len(thms), discharged=0, failed=[], axioms={}, log="", theorems=[t for t, _ in thms], hygiene=[])
     with (NoLock() if locked else Lock("lake")):
-        rc, out, dt = sh(["lake", "build", mod, "oracle"], cwd=LEAN, timeout=3000)
+        rc, out, dt = sh(["lake", "build", mod, "oracle_" + prop], cwd=LEAN, timeout=3000)
     res["log"] = out[-6000:]
     res["build_s"] = round(dt, 1)
     if rc != 0:
@@ -348,7 +348,8 @@ def do_setup():
     print("[setup] go2lean:", "ok" if ok else "PROBLEM", "; ".join(notes[:5]))
     mods = ["SigModel.Props." + p for p in sorted(P.PROPS) if os.path.exists(os.path.join(LEAN, "SigModel", "Props", p + ".lean"))]
     with Lock("lake"):
-        rc, out, dt = sh(["lake", "build", "oracle"] + mods, cwd=LEAN, timeout=7200)
+        exes = ["oracle_" + p for p in sorted(P.PROPS)]
+        rc, out, dt = sh(["lake", "build", "oracle"] + exes + mods, cwd=LEAN, timeout=7200)
     print("[setup] lake build rc=%d %.0fs" % (rc, dt))
     if rc != 0:
         print(out[-3000:])
@@ -366,8 +367,10 @@ def do_replay(prop, path):
     if not ok:
         print("harness build failed\n" + out[-2000:])
         return 2
+    global ORACLE
     with Lock("lake"):
-        sh(["lake", "build", "oracle"], cwd=LEAN, timeout=3000)
+        sh(["lake", "build", "oracle_" + prop], cwd=LEAN, timeout=3000)
+    ORACLE = os.path.join(LEAN, ".lake", "build", "bin", "oracle_" + prop)
     if "op" not in rp or "suite" not in rp:
         print("replay names a broken obligation/correspondence, no concrete input:", json.dumps(rp, indent=1)[:3000])
         return 1
@@ -427,7 +430,7 @@ def run_check(prop, tier, seed):
     with Lock("lake"):
         gen_ok, gen_notes, facts = regenerate(locked=True)
         lc = lean_check(prop, thorough, locked=True)
-        shared_oracle = os.path.join(LEAN, ".lake", "build", "bin", "oracle")
+        shared_oracle = os.path.join(LEAN, ".lake", "build", "bin", "oracle_" + prop)
         if os.path.exists(shared_oracle):
             shutil.copyfile(shared_oracle, os.path.join(rundir, "oracle"))
             os.chmod(os.path.join(rundir, "oracle"), 0o755)
